@@ -13,7 +13,7 @@ import z3
 from pyvc.prop import Unit, Bounded
 from pyvc.values import S_at, strval, SV, STR, OSTR, INT, BOOL, FRAC, DEC, FLOAT, BEAT, TNum, TSeq, TNT, term, is_sym, fresh, fresh_term, coerce
 from pyvc import stdmodels as SM, models as M
-from pyvc.execu import HObj, NTVal, PyRaise, LoopSpec, field_slot, local_slot
+from pyvc.execu import assigned_from, HObj, NTVal, PyRaise, LoopSpec, field_slot, local_slot
 from pyvc.models import real_round_half_even, int_floordiv
 from contracts import timing as T
 
@@ -266,7 +266,7 @@ class BeatValuesFromStr(Unit):
                     z3.Implies(z3.And(i >= 0, i < z3.Length(rows)),
                                bvF(rows, i + 1) == z3.Concat(bvF(rows, i), z3.Unit(row_value(S_at(rows, i)))))]
 
-        slot = field_slot("data", lambda ex_, fr: fr.locals["instance"], "data", TSeq(bv_ty()))
+        slot = field_slot("data", lambda ex_, fr: fr.locals[assigned_from(fr.fi, "cls", 0)], "data", TSeq(bv_ty()))
         ex.loop_specs[("simfile.timing.BeatValues.from_str", 0)] = LoopSpec([slot], inv, using)
         kind, r = ex.run_function(fn, [tm.BeatValues, s])
         i_cur = ex.ghost.get("loop_i")
